@@ -227,6 +227,66 @@ def cmd_protocol(ctx):
     return res
 
 
+def system_spec(ctx):
+    """spec/Minify.tla: the composition of the registry (C15), the call stack of nested minifier calls (C11) and the
+    entry points (C12) with the cross-cutting invariants; three wrong designs must be caught (vacuity guards)."""
+    t0 = time.time()
+    r = vlib.tlc_mc(ctx, 'Minify', 'Minify_mc.cfg', workers=4, heap='3g', timeout=900)
+    res = {'Minify_mc (<= 2 registrations, nesting <= 2, input in <= 2 chunks, 6 entry points)':
+           'SameDispatch ServedByLookup RegistryStable ErrorLocated SameBytes hold (%d states)' % r['distinct']}
+    for cfg, inv, what in (('Minify_nolock.cfg', 'RegistryStable', 'registration allowed during a call'),
+                           ('Minify_nopos.cfg', 'ErrorLocated', 'nested error position not shifted'),
+                           ('Minify_perchunk.cfg', 'SameBytes', 'worker minifies the last chunk only')):
+        g = vlib.tlc(ctx, 'Minify', cfg, workers=2, heap='2g', timeout=600)
+        if inv not in g['invariant_violations']:
+            raise vlib.Infra('vacuity guard: Minify/%s does not violate %s:\n%s' % (cfg, inv, g['out'][-1500:]))
+        res['wrong design: ' + what] = inv + ' violated, as it must be'
+    res['wall_s'] = round(time.time() - t0, 1)
+    return res
+
+
+def apalache(ctx):
+    """Optional: inductive invariant of spec/RegistryTyped.tla for histories of any length (Apalache).
+    Unavailable tool or a timeout is noted in the evidence and never a verdict."""
+    import shutil
+    import subprocess
+    exe = shutil.which('apalache-mc')
+    if not exe:
+        return dict(skipped='apalache-mc not on PATH')
+    d = ctx.path('apalache', 'RegistryTyped.tla')
+    shutil.copy(os.path.join(vlib.SPEC, 'RegistryTyped.tla'), d)
+    wd = os.path.dirname(d)
+    obligations = [('base: Init => IndInv', ['--init=Init', '--inv=IndInv', '--length=0'], 'NoError'),
+                   ('step: IndInv /\\ Next => IndInv\'', ['--init=IndInit', '--inv=IndInv', '--length=1'], 'NoError'),
+                   ('IndInv => LiteralWins /\\ ReRegisterReplaces /\\ FirstPatternWins /\\ NotExistIffNothing',
+                    ['--init=IndInit', '--inv=Safety', '--length=0'], 'NoError'),
+                   ('guard: the step fails for the wrong design "last registered pattern wins"',
+                    ['--init=IndInit', '--next=NextLastWins', '--inv=IndInv', '--length=1'], 'Error')]
+    res = dict(tool='apalache-mc', obligations=0, discharged=0, detail={})
+    t0 = time.time()
+    for name, args, want in obligations:
+        try:
+            r = subprocess.run(['timeout', '600', exe, 'check'] + args + ['--out-dir=' + os.path.join(wd, 'out'), 'RegistryTyped.tla'],
+                               cwd=wd, capture_output=True, text=True, timeout=650)
+        except subprocess.TimeoutExpired:
+            res['detail'][name] = 'timeout'
+            res['skipped'] = 'timeout'
+            break
+        m = re.search(r'The outcome is: (\w+)', r.stdout + r.stderr)
+        got = m.group(1) if m else ('timeout' if r.returncode == 124 else 'no outcome (rc %d)' % r.returncode)
+        res['detail'][name] = got
+        if got in ('timeout',) or not m:
+            res['skipped'] = 'apalache did not finish: ' + got
+            break
+        if want == 'NoError':
+            res['obligations'] += 1
+            res['discharged'] += got == 'NoError'
+        if got != want:
+            raise vlib.Infra('apalache: %s: expected %s, got %s\n%s' % (name, want, got, (r.stdout + r.stderr)[-1500:]))
+    res['wall_s'] = round(time.time() - t0, 1)
+    return res
+
+
 def run(ctx):
     exe = vlib.build_harness(ctx, 'c15')
     quick = ctx.quick()
@@ -238,6 +298,11 @@ def run(ctx):
         raise vlib.Infra('could not read the generated histories (%d of %d) / tables' % (len(hists), r['distinct']))
     ctx.coverage['histories_enumerated'] = len(hists)
     ctx.coverage['cmd_protocol_design'] = cmd_protocol(ctx)
+    if not quick:
+        ctx.coverage['system_spec'] = system_spec(ctx)
+        ctx.coverage['unbounded_registry_apalache'] = apalache(ctx)
+    else:
+        ctx.coverage['system_spec'] = 'thorough tier only (Minify.tla takes more than 10 s)'
     # random walks beyond the exhaustive bound
     nsim = 80 if quick else 1500
     rs = vlib.tlc(ctx, 'Registry', 'Registry_sim.cfg', workers=1, simulate='num=%d' % nsim, depth=9, seed=ctx.seed,
